@@ -273,8 +273,17 @@ func (t *Task) removeFromQueues() {
 	}
 }
 
-func (t *Task) runWithLocking() {
+// runWithLocking starts the task, if it may be started. If the task was taken
+// from a queue, queuedAs is the list element it was queued as.
+func (t *Task) runWithLocking(queuedAs *list.Element) {
 	t.lock.Lock()
+
+	// The task may have been removed from the queue (or queued anew) since
+	// the queue handler took the element: that element is then void.
+	if queuedAs != nil && t.queueElement != queuedAs && t.prioritizedQueueElement != queuedAs {
+		t.lock.Unlock()
+		return
+	}
 
 	// we will not attempt execution, remove from queues
 	t.removeFromQueues()
@@ -507,7 +516,7 @@ func taskQueueHandler() {
 			t := e.Value.(*Task) //nolint:forcetypeassert // Can only be *Task.
 			verifPoint("queue.popped", t.module)
 			// run
-			t.runWithLocking()
+			t.runWithLocking(e)
 		}
 	}
 }
@@ -560,7 +569,7 @@ func taskScheduleHandler() {
 				scheduleLock.Unlock()
 				verifPoint("sched.decided", t.module)
 
-				t.runWithLocking()
+				t.runWithLocking(nil)
 			} else {
 				// place in front of prioritized queue
 				t.overtime = true
